@@ -33,6 +33,7 @@ from ..tools import (EMPTY_MAP, EMPTY_SET, MapCover, SequenceSet, SetView,
                      abcs, dictattr, isattrstr, isint, qset)
 from ..tools.events import EventEmitter
 from . import BranchMeta, NodeMeta, WorldPair
+from .. import _verif
 
 if TYPE_CHECKING:
     from typing import overload
@@ -52,6 +53,8 @@ class Node(MapCover, abcs.Copyable, metaclass=NodeMeta):
     'A tableau node.'
 
     __slots__ = ('step', 'ticked')
+    if _verif.ENABLED:
+        __slots__ += ('_verif_hash',)
 
     def __init__(self, mapping = EMPTY_MAP, /):
         if mapping is self:
@@ -117,6 +120,14 @@ class Node(MapCover, abcs.Copyable, metaclass=NodeMeta):
 
     def __hash__(self):
         return id(self)
+
+    if _verif.ENABLED:
+        def __hash__(self):
+            try:
+                return self._verif_hash
+            except AttributeError:
+                self._verif_hash = value = _verif.next_hash()
+                return value
 
     __delattr__ = Emsg.Attribute.razr
 
@@ -258,6 +269,8 @@ class Branch(SequenceSet[Node], EventEmitter, abcs.Copyable, metaclass=BranchMet
         '_worlds',
         'constants',
         'worlds')
+    if _verif.ENABLED:
+        __slots__ += ('_verif_hash',)
 
     INDEX_KEYS = (
         (Node.Key.sentence,),
@@ -498,6 +511,9 @@ class Branch(SequenceSet[Node], EventEmitter, abcs.Copyable, metaclass=BranchMet
 
     def __hash__(self):
         return id(self)
+
+    if _verif.ENABLED:
+        __hash__ = Node.__hash__
 
     def __contains__(self, node):
         return node in self._nodes
